@@ -29,12 +29,17 @@
 #include <cstdint>
 #include <AIToolbox/Seeder.hpp>
 #include <AIToolbox/MDP/Algorithms/MCTS.hpp>
-#include <AIToolbox/POMDP/Algorithms/POMCP.hpp>
+#include <AIToolbox/Logging.hpp>
+#include <AIToolbox/Utils/Probability.hpp>
+#include <AIToolbox/POMDP/Types.hpp>
+#include <AIToolbox/POMDP/TypeTraits.hpp>
 // rPOMCP keeps its tracking / sampling beliefs protected / private; they are part of what the
 // property speaks about (particle beliefs), so this translation unit (only) opens them up.  All
-// standard / Eigen headers are already included above through MCTS.hpp and POMCP.hpp.
+// standard / Eigen headers are already included above through MCTS.hpp and the POMDP type headers.
+// POMCP's private random engine is read (copied) to predict what a (re)start must resample.
 #define private public
 #define protected public
+#include <AIToolbox/POMDP/Algorithms/POMCP.hpp>
 #include <AIToolbox/POMDP/Algorithms/rPOMCP.hpp>
 #undef private
 #undef protected
@@ -168,16 +173,24 @@ void runPOMCP(vio::Cursor & c, vio::Out & o) {
         const std::string op = c.next();
         m.log.clear(); m.termCalls = 0;
         size_t ret;
+        // what a (re)start must put into the root: beliefSize draws of sampleProbability from the
+        // given belief (call from scratch) / the uniform belief (restart), with the planner's engine
+        // as it is before the call (copied, the planner's own engine is untouched)
+        auto engine = planner.rand_;
+        AIToolbox::POMDP::Belief rb(m.S);
         if (op == "F") {
             AIToolbox::POMDP::Belief b(m.S);
             for (size_t s = 0; s < m.S; ++s) b[s] = c.nextDouble();
             unsigned h = (unsigned) c.nextSize();
+            rb = b;
             ret = planner.sampleAction(b, h);
         }
-        else if (op == "A") { size_t a = c.nextSize(); size_t ob = c.nextSize(); unsigned h = (unsigned) c.nextSize(); ret = planner.sampleAction(a, ob, h); }
+        else if (op == "A") { size_t a = c.nextSize(); size_t ob = c.nextSize(); unsigned h = (unsigned) c.nextSize(); rb.fill(1.0 / m.S); ret = planner.sampleAction(a, ob, h); }
         else throw std::logic_error("unknown op " + op);
         o << "OP" << ret << m.termCalls;
         dumpLog(o, m);
+        o << "RS" << (size_t) beliefSize;
+        for (size_t i2 = 0; i2 < beliefSize; ++i2) o << AIToolbox::sampleProbability(m.S, rb, engine);
         o << "TREE";
         dumpNode(o, planner.getGraph(), &planner.getGraph().belief);
     }
@@ -218,16 +231,21 @@ void runRPOMCP(vio::Cursor & c, vio::Out & o) {
         const std::string op = c.next();
         m.log.clear(); m.termCalls = 0;
         size_t ret;
+        auto engine = planner.rand_;
+        AIToolbox::POMDP::Belief rb(m.S);
         if (op == "F") {
             AIToolbox::POMDP::Belief b(m.S);
             for (size_t s = 0; s < m.S; ++s) b[s] = c.nextDouble();
             unsigned h = (unsigned) c.nextSize();
+            rb = b;
             ret = planner.sampleAction(b, h);
         }
-        else if (op == "A") { size_t a = c.nextSize(); size_t ob = c.nextSize(); unsigned h = (unsigned) c.nextSize(); ret = planner.sampleAction(a, ob, h); }
+        else if (op == "A") { size_t a = c.nextSize(); size_t ob = c.nextSize(); unsigned h = (unsigned) c.nextSize(); rb.fill(1.0 / m.S); ret = planner.sampleAction(a, ob, h); }
         else throw std::logic_error("unknown op " + op);
         o << "OP" << ret << m.termCalls;
         dumpLog(o, m);
+        o << "RS" << (size_t) beliefSize;
+        for (size_t i2 = 0; i2 < beliefSize; ++i2) o << AIToolbox::sampleProbability(m.S, rb, engine);
         o << "SB" << (size_t) planner.getGraph().sampleBelief_.size();
         for (const auto & p : planner.getGraph().sampleBelief_) o << p.first << p.second;
         o << "TREE";
